@@ -18,6 +18,14 @@
 (*     iteration order, in any interleaving (work stealing), and appends   *)
 (*     each group's items to that module's string in a concurrent map.     *)
 (*  4. final emission walks the module tree SORTED by path.                *)
+(*  5. split mode (write_split_mod): instead of appending the items of a   *)
+(*     module to one string, the worker writes every item to a file of its *)
+(*     own, `<kind>_<name>.rs`, and lists the files in the module's mod.rs *)
+(*     in the order written.  Names that collide case-insensitively within *)
+(*     a module get the suffix _2, _3, ... from a set of names already     *)
+(*     used.  NameScope selects the as-built behaviour ("module": a fresh  *)
+(*     set per module) or a set that lives as long as the worker           *)
+(*     ("worker": a seeded change, /verif/seeded/c17e).                    *)
 (*                                                                         *)
 (* Property (C17): the emitted text is a function of the input only:       *)
 (* whatever the hash orders and the schedule, the result equals Expected.  *)
@@ -35,7 +43,9 @@ CONSTANTS Mods,         \* set of module names (model values or strings)
                         \* ignore_unused, the builder's default)
           Nested,       \* [item -> Seq(nested items)] sibling nested messages in declaration order
           W,            \* number of workers
-          NestedOrder   \* "hash" (as built before the fix) | "decl"
+          NestedOrder,  \* "hash" (as built before the fix) | "decl"
+          Stem,         \* [item -> file stem]: `<kind>_<name>` lower-cased; items with equal stems collide
+          NameScope     \* "module" (as built) | "worker"
 
 VARIABLES groupOrder,   \* the iteration order of the group map (a permutation of Mods as a sequence)
           fileOrder,    \* the order in which the files are lowered (definition ids are handed out in this order,
@@ -44,8 +54,10 @@ VARIABLES groupOrder,   \* the iteration order of the group map (a permutation o
           next,         \* index of the next group to hand out
           busy,         \* [1..W -> module being written or 0 (idle)]
           pkgs,         \* [Mods -> Seq(items)] text of a module (as the sequence of items written)
-          out           \* final output: Seq of <<module, text>>, or <<>> while running
-vars == <<groupOrder, fileOrder, lowered, next, busy, pkgs, out>>
+          out,          \* final output: Seq of <<module, text>>, or <<>> while running
+          seen,         \* [1..W -> set of file names <<stem, k>> the worker's name set holds]
+          files         \* [Mods -> Seq of <<file name, item>>]: split mode, the files of a module in the order of its mod.rs
+vars == <<groupOrder, fileOrder, lowered, next, busy, pkgs, out, seen, files>>
 
 Perms(S) == {f \in [1..Cardinality(S) -> S] : \A i, j \in 1..Cardinality(S) : i # j => f[i] # f[j]}
 PermsOfSeq(s) == {[i \in 1..Len(s) |-> s[p[i]]] : p \in Perms(1..Len(s))}
@@ -74,12 +86,25 @@ Init == /\ groupOrder \in Perms(Mods)
                   IN \* (one module's items in any order is enough to tell the variants apart)
                      \E m0 \in Mods : \E p \in PermsOfSeq(base[m0]) : lowered = [m \in Mods |-> IF m = m0 THEN p ELSE base[m]]
         /\ next = 1 /\ busy = [w \in 1..W |-> 0] /\ pkgs = [m \in Mods |-> <<>>] /\ out = <<>>
+        /\ seen = [w \in 1..W |-> {}] /\ files = [m \in Mods |-> <<>>]
+
+\* generate_unique_name: the stem itself (k = 1) or the first stem_k (k = 2, 3, ...) the set does not hold
+UniqueName(used, stem) == <<stem, CHOOSE k \in 1..(Cardinality(used) + 1) : <<stem, k>> \notin used /\ \A j \in 1..(k - 1) : <<stem, j>> \in used>>
+\* the files of an item sequence, named one after the other against a growing set: [names, used]
+RECURSIVE NameAll(_, _, _)
+NameAll(items, used, acc) ==
+  IF items = <<>> THEN [names |-> acc, used |-> used]
+  ELSE LET n == UniqueName(used, Stem[Head(items)]) IN NameAll(Tail(items), used \cup {n}, Append(acc, <<n, Head(items)>>))
 
 Take(w) == /\ busy[w] = 0 /\ next <= Cardinality(Mods)
            /\ busy' = [busy EXCEPT ![w] = groupOrder[next]] /\ next' = next + 1
-           /\ UNCHANGED <<groupOrder, fileOrder, lowered, pkgs, out>>
+           /\ seen' = IF NameScope = "module" THEN [seen EXCEPT ![w] = {}] ELSE seen
+           /\ UNCHANGED <<groupOrder, fileOrder, lowered, pkgs, out, files>>
 Write(w) == /\ busy[w] # 0
             /\ pkgs' = [pkgs EXCEPT ![busy[w]] = @ \o lowered[busy[w]]]
+            /\ LET r == NameAll(lowered[busy[w]], seen[w], <<>>) IN
+               /\ files' = [files EXCEPT ![busy[w]] = @ \o r.names]
+               /\ seen' = [seen EXCEPT ![w] = r.used]
             /\ busy' = [busy EXCEPT ![w] = 0]
             /\ UNCHANGED <<groupOrder, fileOrder, lowered, next, out>>
 \* sorted emission: Mods must be comparable (use strings or integers)
@@ -87,11 +112,19 @@ RECURSIVE SortedSeq(_)
 SortedSeq(S) == IF S = {} THEN <<>> ELSE LET m == CHOOSE x \in S : \A y \in S : x <= y IN <<m>> \o SortedSeq(S \ {m})
 Emit == /\ out = <<>> /\ next > Cardinality(Mods) /\ \A w \in 1..W : busy[w] = 0
         /\ out' = [i \in 1..Cardinality(Mods) |-> <<SortedSeq(Mods)[i], pkgs[SortedSeq(Mods)[i]]>>]
-        /\ UNCHANGED <<groupOrder, fileOrder, lowered, next, busy, pkgs>>
+        /\ UNCHANGED <<groupOrder, fileOrder, lowered, next, busy, pkgs, seen, files>>
 Next == Emit \/ \E w \in 1..W : Take(w) \/ Write(w)
 Spec == Init /\ [][Next]_vars /\ WF_vars(Next)
 
 Expected == [i \in 1..Cardinality(Mods) |-> <<SortedSeq(Mods)[i], Flatten(ItemsOf[SortedSeq(Mods)[i]], Nested)>>]
 OutputIsFunctionOfInput == out # <<>> => out = Expected
+\* split mode: the set of files, their names and the order of every mod.rs are a function of the input only ...
+ExpectedFiles == [m \in Mods |-> NameAll(Flatten(ItemsOf[m], Nested), {}, <<>>).names]
+SplitOutputIsFunctionOfInput == out # <<>> => files = ExpectedFiles
+\* ... no two items of a module share a file (an item would be lost) ...
+SplitNamesDistinct == \A m \in Mods : \A i, j \in 1..Len(files[m]) : i # j => files[m][i][1] # files[m][j][1]
+\* ... and the files of a module hold exactly the items the single-file output of that module holds (bound to the code by the
+\* partition check of lib/splitcheck.py: the real split output, include! lines resolved, is the real single-file output)
+SplitIsPartition == out # <<>> => \A m \in Mods : [i \in 1..Len(files[m]) |-> files[m][i][2]] = pkgs[m]
 Terminates == <>(out # <<>>)
 =============================================================================
